@@ -165,9 +165,9 @@ for _s, _k in KINDS + [("null", "Null")]:
            "moves::base::do_make_pawn_double", "moves::base::do_make_enpassant", "moves::base::do_make_castling_kingside", "moves::base::do_make_castling_queenside", "RawBoard::put", "Board::color_mut", "Board::piece_mut"],
           "for all well-formed boards (side %s; consistent mark; rights only with king and rook at home; ANY counters) x all pseudo-legal moves of kind %s (incl. those leaving the king attacked): after make, the six raw fields == ref_apply (saturating counters), derived sets well-formed at every square; after unmake every field, the hash and all 16 sets equal the original" % (_c, _k),
           assumes=ATT + (["C06/semilegal/%s/%s" % (_k, _c)] if _k != "Null" else []), tier=KTIER(_k))
-        K("C05/hash-step/%s/%s" % (_k, _c), ["C05", "C02"], MB + "c05_hash_%s_%s" % (_s, _c), ["moves::base::do_make_move", "zobrist::pieces", "zobrist::castling", "zobrist::enpassant", "zobrist::castling_delta"],
-          "for all boards as above with hash == from-scratch hash: after make of any pseudo-legal move of kind %s (side %s) the stored hash == from-scratch hash of the new raw position" % (_k, _c),
-          assumes=["C05/scratch/zobrist-hash", "C05/scratch/ref-hash"], tier=KTIER(_k))
+        K("C05/hash-delta/%s/%s" % (_k, _c), ["C05", "C02", "C14"], "moves::base::verif_kani_b::c05_delta_%s_%s" % (_s, _c), ["moves::base::do_make_move", "moves::base::update_castling", "zobrist::pieces", "zobrist::castling", "zobrist::enpassant", "zobrist::castling_delta"],
+          "for all boards as above (ANY stored hash) and every pseudo-legal move of kind %s (side %s): new.hash ^ old.hash == side key ^ old and new rights keys ^ old and new mark keys ^ XOR over the <= 4 squares the move touches of (old key ^ new key); every other square of the reference result is unchanged (frame)" % (_k, _c),
+          assumes=["C03/make/%s/%s" % (_k, _c)], tier=KTIER(_k))
 K("C05/keys/single-feature", ["C05", "C19"], "zobrist::verif_kani::c05_keys_single_feature_differences", ["zobrist::pieces", "zobrist::castling", "zobrist::enpassant", "zobrist::MOVE_SIDE"],
   "tables of this build: empty-cell key is 0; keys of two different cells on one square differ; side key != 0; toggling one castling right changes the castling key; en-passant keys are non-zero and pairwise different; every index in range")
 K("C05/keys/castling-delta", ["C05"], "zobrist::verif_kani::c05_castling_delta_keys", ["zobrist::castling_delta"],
@@ -176,9 +176,6 @@ K("C05/keys/castling-delta", ["C05"], "zobrist::verif_kani::c05_castling_delta_k
 BD = "board::verif_kani::"
 K("C05/scratch/zobrist-hash", ["C05", "C19"], "board::verif_kani_b::c05_zobrist_hash_is_the_definition", ["RawBoard::zobrist_hash"],
   "for all raw boards (13^64 placements, side, rights, mark, counters): zobrist_hash == side key ^ mark key ^ rights key ^ XOR of piece keys of the occupied squares, over the key tables of this build; neither counter enters",
-  assumes=["C05/keys/tables-read"], timeout=2400, mem_gb=32, mem_est=12)
-K("C05/scratch/ref-hash", ["C05"], "board::verif_kani_b::c05_ref_hash_is_the_definition", [],
-  "harness-side helper: anyboard::ref_hash (the 'from-scratch hash' of the step obligations) is the same fold over the key tables, so C05/hash-step/* speak about RawBoard::zobrist_hash",
   assumes=["C05/keys/tables-read"], timeout=2400, mem_gb=32, mem_est=12)
 K("C05/keys/tables-read", ["C05", "C19"], "zobrist::verif_kani_b::c05_key_functions_read_the_tables", ["zobrist::pieces", "zobrist::enpassant", "zobrist::castling"],
   "for all cells, squares and rights sets: the key functions return the corresponding table entries (index in bounds)")
@@ -227,7 +224,7 @@ V("C13/chain/verus", ["C13", "C14", "C04", "C02", "C05"], "chain.vspec",
    "BaseMoveChain::is_finished", "BaseMoveChain::clear_outcome", "BaseMoveChain::set_outcome", "BaseMoveChain::reset_outcome", "BaseMoveChain::calc_outcome",
    "BaseMoveChain::set_auto_outcome", "BaseMoveChain::do_finish_push", "BaseMoveChain::push_unchecked", "BaseMoveChain::push", "BaseMoveChain::pop", "Outcome::is_force", "Outcome::passes"],
   "for chains of ANY length and any Repeat / Make implementation satisfying their contracts: push on Ok appends exactly the denoted legal move (board == apply, undo recorded, table +1), on Err changes nothing; pop removes exactly the last entry, restores the previous board, clears the outcome, table -1; lemmas: the chain invariant (board == replay(start, moves), undo data and legality of every entry, table == multiset of all positions so far) is established by new and preserved by push/pop/outcome operations; calc_outcome satisfies the C14 precedence relation; set_auto_outcome stores exactly when the filter passes; history lemmas (any length): an invariant preserved by every step holds along every history (C05), and undoing a whole history newest-first returns the start position (C04)",
-  assumes=STEP + ["C07/calc-outcome", "C11/try-from/normalised", "C20/types/outcome-filter"] + ["C05/hash-step/%s/%s" % (_k, _c) for _s, _k in KINDS + [("null", "Null")] for _c in ("w", "b")])
+  assumes=STEP + ["C07/calc-outcome", "C11/try-from/normalised", "C20/types/outcome-filter"] + ["C05/hash-delta/%s/%s" % (_k, _c) for _s, _k in KINDS + [("null", "Null")] for _c in ("w", "b")])
 
 # ---------------------------------------------------------------------------------------------
 # C02 the safe application path; C10 UCI
@@ -475,6 +472,10 @@ for _i, _g in enumerate(("gen_all", "gen_capture", "gen_simple", "gen_simple_no_
 for _o in OBS:
     if any(x in _o["id"] for x in ("public-glue", "C07/legal-filter", "C09/from-move/simple", "C09/into-move/", "C07/calc-outcome", "C01/validate-glue")):
         _o["no_native_replay"] = True
+
+V("C05/lemma/fold", ["C05", "C14"], "hash.vspec", [],
+  "over an UNINTERPRETED key function (so for the key tables of every build): changing one square changes the XOR fold by that square's old and new key (induction over the 64 squares); hence delta contract (C05/hash-delta/*) + frame (C03) + 'stored hash == from-scratch hash' before the step imply it after the step",
+  assumes=["C05/hash-delta/%s/%s" % (_k, _c) for _s, _k in KINDS + [("null", "Null")] for _c in ("w", "b")] + ["C05/scratch/zobrist-hash"])
 
 
 def by_id():
